@@ -737,6 +737,39 @@ fn gen_hdr(seed: u64, n: usize) {
     for i in 0..n {
         let api = ["cap", "cmd"][i % 2];
         let nh = *r.pick(&[0usize, 1, 2, 2, 3, 3, 4, 4, 5, 6]);
+        if r.chance(1, 12) {
+            // many header LINES (33-80): distinct single-valued names plus 1-3 multi-valued names with 2-6 distinguishable
+            // values each, in random call order — an unstable sort shows in the order of the lines of one name
+            let target = 33 + r.below(48) as usize;
+            let nmulti = 1 + r.below(3) as usize;
+            let mut calls = vec![];
+            let mut lines = 0;
+            for m in 0..nmulti {
+                let nv = 2 + r.below(5) as usize;
+                let name = *r.pick(&["Accept", "x-multi", "Set-Cookie", "m", "zz-last", "a-first"]);
+                let vs: Vec<String> = (0..nv).map(|v| hx(&format!("m{m}v{v}"))).collect();
+                calls.push(format!("h:{}:{}", hx(&format!("{name}{m}")), vs.join(",")));
+                lines += nv;
+            }
+            let mut k = 0;
+            while lines < target {
+                let name = match r.below(3) {
+                    0 => format!("X-H{k:03}"),
+                    1 => format!("h{k}"),
+                    _ => format!("x-h{k:03}"),
+                };
+                calls.push(format!("h:{}:{}", hx(&name), hx(&format!("v{k}"))));
+                lines += 1;
+                k += 1;
+            }
+            for a in (1..calls.len()).rev() {
+                let b = r.below(a as u64 + 1) as usize;
+                calls.swap(a, b);
+            }
+            let url = "https://example.com/";
+            writeln!(out, "hdr {api} {} {} {} {}", r.pick(&methods), hx(url), hx(url), calls.join(";")).unwrap();
+            continue;
+        }
         let mut calls: Vec<String> = (0..nh)
             .map(|_| {
                 let name = if r.chance(1, 8) { rand_text(&mut r, &"abcXYZ-09".chars().collect::<Vec<_>>(), 6) } else { r.pick(&NAMES).to_string() };
